@@ -651,7 +651,8 @@ static void apply_defect(struct sim *s, struct exchange *ex, struct plist *l, co
 		if (d == D_LEN_SMALL)
 			nv = pl->param < 8 ? pl->param : rndn(&s->rng, 8);
 		else if (d == D_LEN_BIG)
-			nv = BIG[rndn(&s->rng, 6)];
+			/* one time in three the low 16 bits are the PDU's true length: too big all the same */
+			nv = rndp(&s->rng, 1, 3) ? cur + 65536u * (rndp(&s->rng, 1, 2) ? 1u : 1u + rndn(&s->rng, 0xffff)) : BIG[rndn(&s->rng, 6)];
 		else {
 			do {
 				if (rndp(&s->rng, 1, 4)) {
